@@ -86,7 +86,6 @@ class ExpMPOEvolution(TimeEvolutionAlgorithm):
         U_param = dict(dt=dt, order=order, approximation=approximation)
         if self._U_param == U_param and not self.force_prepare_evolve:
             return  # nothing to do: _U is cached
-        self._U_param = U_param
         logger.info('Calculate U for %s', U_param)
         consistency_check(
             dt,
@@ -106,6 +105,7 @@ class ExpMPOEvolution(TimeEvolutionAlgorithm):
             self._U_MPO = [U1, U2]
         else:
             raise ValueError(f'order {order} not implemented')
+        self._U_param = U_param  # only now: `_U_MPO` is not cached if the above raised
         self.force_prepare_evolve = False
 
     def evolve_step(self, dt):
